@@ -87,6 +87,10 @@ def run(chk, repo, tier):
     chk.clause('C03-p', 'segment tilts stay with their own field through products; the FFT branch sums the segment fields in one zeroed region', 3)
     from . import common as _common, c09 as _c09
     _common.mul_concat(chk, repo, 'C03-p')
+    from .prop_flow import own_storage_rule
+    own_storage_rule(chk, repo, 'C03-p')
+    from .prop_flow import skip_rule as _skip_rule
+    _skip_rule(chk, repo, 'C03-p')
     _c09.run(Remap(chk, {'C09-d': 'C03-p', 'C09-f': 'C03-p'}), repo, tier)
     # a cropped sub-array is transformed about its own origin floor(n/2) on each axis (plus its offset): the kernel
     # coordinate origins of the DFT
